@@ -500,9 +500,13 @@ func newPrio(c Cfg, w *vrt.World) *explore.Instance {
 			inputs[i] = ch
 			st := vrt.NameChan[Item](ch, fmt.Sprintf("in%d", p))
 			m.ins = append(m.ins, st)
-			m.reg[st] = p
 			m.origin[i] = st
-			inMap[p] = ch
+			if c.Mode == "fromempty" {
+				// v1: the discipline is created without inputs; they are added later
+			} else {
+				m.reg[st] = p
+				inMap[p] = ch
+			}
 			if c.Mode == "endless" {
 				vrt.Endless(ch, Item{i, 0, true})
 				continue
@@ -582,8 +586,11 @@ func newPrio(c Cfg, w *vrt.World) *explore.Instance {
 			m.out = vrt.NameChan[prio1.Prioritized[Item]](output, "out")
 			m.fb = vrt.NameChan[uint](feedback, "feedback")
 			o := prio1.Opts[Item]{Divider: divw.v1, Feedback: feedback, HandlersQuantity: c.H, Inputs: inMap, Output: output}
-			if c.Stop == "cancel" || c.Stop == "both" {
+			if c.Stop == "cancel" || c.Stop == "both" || c.Stop == "precancel" {
 				o.Ctx, v1.cancel = vcontext.WithCancel(vcontext.Background())
+			}
+			if c.Stop == "precancel" {
+				v1.cancel() // the context is already cancelled when the discipline is created
 			}
 			d, err := prio1.New(o)
 			if err != nil {
@@ -625,8 +632,11 @@ func newPrio(c Cfg, w *vrt.World) *explore.Instance {
 				m.handling--
 			}
 			o := prio1.SimpleOpts[Item]{Divider: divw.v1, Handle: handle, HandlersQuantity: c.H, Inputs: inMap}
-			if c.Stop == "cancel" || c.Stop == "both" {
+			if c.Stop == "cancel" || c.Stop == "both" || c.Stop == "precancel" {
 				o.Ctx, v1.cancel = vcontext.WithCancel(vcontext.Background())
+			}
+			if c.Stop == "precancel" {
+				v1.cancel()
 			}
 			d, err := prio1.NewSimple(o)
 			if err != nil {
@@ -1116,6 +1126,19 @@ func (m *prioMon) spawnV1Control(c Cfg, v1 *v1Ctl, inputs []chan Item) {
 		vrt.Spawn("stopper", func() {
 			v1.cancel()
 		})
+	case "precancel":
+		// nothing to do: the context was cancelled before New
+	case "twice":
+		// Stop() twice in a row from one goroutine and once more from another
+		vrt.Spawn("stopper", func() {
+			v1.stop()
+			m.stopReturned = true
+			v1.stop()
+		})
+		vrt.Spawn("stopper", func() {
+			v1.stop()
+			m.stopReturned = true
+		})
 	case "both":
 		// Stop() from one goroutine, context cancellation from another, in any order
 		vrt.Spawn("stopper", func() {
@@ -1154,6 +1177,20 @@ func (m *prioMon) spawnV1Control(c Cfg, v1 *v1Ctl, inputs []chan Item) {
 					}
 				}
 				vrt.Mark(0xd0e)
+			})
+		} else if c.Mode == "fromempty" {
+			v1.scriptDone = false
+			vrt.Spawn("control", func() {
+				for i, p := range c.P {
+					vrt.Mark(uint64(i) + 0x40)
+					st := m.origin[i]
+					m.pendingReg[st] = p
+					v1.add(inputs[i], p)
+					delete(m.pendingReg, st)
+					m.reg[st] = p
+				}
+				vrt.Mark(0xd0e)
+				v1.scriptDone = true
 			})
 		} else if c.Script > 0 {
 			m.spawnScript(c, v1, inputs)
@@ -1285,4 +1322,6 @@ func (m *prioMon) spawnScript(c Cfg, v1 *v1Ctl, inputs []chan Item) {
 	})
 }
 
-func isRough(c Cfg) bool { return c.Stop == "stop" || c.Stop == "cancel" || c.Stop == "both" }
+func isRough(c Cfg) bool {
+	return c.Stop == "stop" || c.Stop == "cancel" || c.Stop == "both" || c.Stop == "precancel" || c.Stop == "twice"
+}
